@@ -74,6 +74,7 @@ fn main() {
         "uringfault" => crashdrv::uringfault_main(rest),
         "clocksat" => seqdrv::clocksat(rest),
         "faultstory" => seqdrv::faultstory(rest),
+        "inflightstory" => seqdrv::inflightstory(rest),
         "layout-selftest" => layout::selftest(rest.first().map(|s| s.as_str()).unwrap_or("/dev/shm/fxv-layout")),
         "version" => {
             println!("fxv record_overhead={}", feoxdb::FeoxStore::verif_record_overhead());
